@@ -100,6 +100,13 @@ func (Engine) Generate(prop, tier string, seed, run uint64) json.RawMessage {
 	case "C05":
 		p.Hist = []History{{Batches: chronological(nf, r)}}
 	case "C08":
+		if nf > 1 && r.IntN(5) == 0 {
+			// capture files that overlap in time (the comparison is between import
+			// histories of the same files, so equal timestamps in two files are
+			// ordered the same way in every history)
+			p.Net.Overlap = 2 + r.IntN(12)
+		}
+		restartEvery := []int{4, 4, 2, 1}[r.IntN(4)] // some capture sets get restart-heavy histories
 		k := 2 + r.IntN(4)
 		for h := 0; h < k; h++ {
 			var hist History
@@ -123,7 +130,7 @@ func (Engine) Generate(prop, tier string, seed, run uint64) json.RawMessage {
 				i += n
 			}
 			for i := range hist.Batches {
-				rs := i > 0 && r.IntN(4) == 0
+				rs := i > 0 && r.IntN(restartEvery) == 0
 				hist.Restart = append(hist.Restart, rs)
 				hist.DropSnap = append(hist.DropSnap, rs && r.IntN(2) == 0)
 			}
